@@ -5,8 +5,8 @@
    ty / sv : the width and SSA version of every scalar NAME (wf_names; the executor keys its state
    by name only);  lift : the re-lifting oracle of indirect branches that leave the program (trusted). *)
 From Coq Require Import ZArith List Bool NArith.
-From Falcon Require Import Base.Res IL.Const IL.Expr IL.Func IL.Loc Exec.Sem Exec.State Exec.Driver
-  Exec.DriverSpec Exec.DriverProofs.
+From Falcon Require Import Base.Res IL.Const IL.Expr IL.Func IL.Loc IL.LocProofs Exec.Sem Exec.State Exec.Driver
+  Exec.DriverSpec Exec.DriverProofs Exec.DriverClosure Mem.PagedTypes Mem.Paged Mem.PagedProofs Exec.PagedDriver.
 Import ListNotations.
 Local Open Scope Z_scope.
 
@@ -21,8 +21,8 @@ Local Open Scope Z_scope.
 Theorem step_refines : forall ty sv lift p pl fi l f x,
   wf_prog_b ty sv p = true -> ploc_apply p pl = Ok (fi, l) -> program_function p fi = Some f ->
   typed_b ty (x_scal x) = true -> mem_ok_b (x_mem x) = true ->
-  det_at f l (abs sv x) = true -> top_at f l (abs sv x) = false ->
-  refines lift sv p fi (step lift (mkd p pl x)) (sem_step f l (abs sv x)).
+  det_at f l (DriverSpec.abs sv x) = true -> top_at f l (DriverSpec.abs sv x) = false ->
+  refines lift sv p fi (step lift (mkd p pl x)) (sem_step f l (DriverSpec.abs sv x)).
 Proof. exact DriverProofs.step_refines_main. Qed.
 Print Assumptions step_refines.
 
@@ -32,12 +32,15 @@ Proof. exact DriverProofs.guards_det_here_det_at. Qed.
 Print Assumptions guards_det_suffices.
 
 (* 2. [U] all step counts: n steps of the driver are n steps of the semantics (branches resolved by
-      from_address), as long as the side conditions hold along the SEMANTIC run (run_ok). *)
-Theorem steps_refine : forall ty sv lift p n fi l x,
-  wf_prog_b ty sv p = true -> typed_b ty (x_scal x) = true -> mem_ok_b (x_mem x) = true ->
-  run_ok n p (mksc fi l (abs sv x)) = true ->
-  run_refines sv p (run lift n (mkd p (mkploc (Some fi) l) x)) (sem_prun n p (mksc fi l (abs sv x))).
-Proof. exact DriverProofs.steps_refine_main. Qed.
+      from_address), from any VALID start location (C18's valid_loc: what locations(), forward() and
+      from_address produce), as long as det_at / top_at hold along the SEMANTIC run (run_ok).  Closure of
+      valid locations under forward / from_address is C18's forward_total / from_address_sound. *)
+Theorem steps_refine : forall ty sv lift p n fi l f x,
+  wf_prog_b ty sv p = true -> program_function p fi = Some f -> valid_loc f l = true ->
+  typed_b ty (x_scal x) = true -> mem_ok_b (x_mem x) = true ->
+  run_ok n p (mksc fi l (DriverSpec.abs sv x)) = true ->
+  run_refines sv p (run lift n (mkd p (mkploc (Some fi) l) x)) (sem_prun n p (mksc fi l (DriverSpec.abs sv x))).
+Proof. exact DriverClosure.steps_refine_main. Qed.
 Print Assumptions steps_refine.
 
 (* 3. [U] frame, for the executor model itself and without any premise: a successful step changes
@@ -56,9 +59,9 @@ Print Assumptions step_frame.
 Theorem step_deterministic : forall ty sv lift p pl fi l f x c',
   wf_prog_b ty sv p = true -> ploc_apply p pl = Ok (fi, l) -> program_function p fi = Some f ->
   typed_b ty (x_scal x) = true -> mem_ok_b (x_mem x) = true ->
-  det_at f l (abs sv x) = true -> top_at f l (abs sv x) = false ->
+  det_at f l (DriverSpec.abs sv x) = true -> top_at f l (DriverSpec.abs sv x) = false ->
   step lift (mkd p pl x) = Ok c' ->
-  (forall a st', sem_step f l (abs sv x) <> Goto a st') ->
+  (forall a st', sem_step f l (DriverSpec.abs sv x) <> Goto a st') ->
   forall succs l'', forward f l = Ok succs -> In l'' succs ->
     edge_enabled f (abs_env sv (x_scal (d_st c'))) l'' = Ok true -> d_loc c' = mkploc (Some fi) l''.
 Proof. exact DriverProofs.step_deterministic_main. Qed.
@@ -70,9 +73,9 @@ Print Assumptions step_deterministic.
 Theorem no_guessed_value : forall ty sv lift p pl fi l f x,
   wf_prog_b ty sv p = true -> ploc_apply p pl = Ok (fi, l) -> program_function p fi = Some f ->
   typed_b ty (x_scal x) = true -> mem_ok_b (x_mem x) = true ->
-  det_at f l (abs sv x) = true -> top_at f l (abs sv x) = false ->
-  (forall e, sem_step f l (abs sv x) = Stuck e -> step lift (mkd p pl x) = Err (emap e)) /\
-  (forall st' ev, sem_step f l (abs sv x) = Exit st' ev -> step lift (mkd p pl x) = Err ENoLocation).
+  det_at f l (DriverSpec.abs sv x) = true -> top_at f l (DriverSpec.abs sv x) = false ->
+  (forall e, sem_step f l (DriverSpec.abs sv x) = Stuck e -> step lift (mkd p pl x) = Err (emap e)) /\
+  (forall st' ev, sem_step f l (DriverSpec.abs sv x) = Exit st' ev -> step lift (mkd p pl x) = Err ENoLocation).
 Proof. exact DriverProofs.no_guessed_value_main. Qed.
 Print Assumptions no_guessed_value.
 
@@ -91,6 +94,48 @@ Theorem stuck_situations :
   (forall f st ev succs e, succs <> [] -> enabled_locs f (st_env st) succs = Err e -> choose f st ev succs = Stuck e).
 Proof. exact DriverProofs.stuck_situations_main. Qed.
 Print Assumptions stuck_situations.
+
+(* 6. [U] C07 o C08 in one statement: the SAME driver (PagedDriver.gstep, of which Driver.step is the
+      byte-map instance: xstep_eq) run over the REAL paged-memory model (Mem/Paged.v, V = Constant,
+      Paged.store / Paged.load COps) refines the semantics.  srel ps x: same scalars, and the byte map of x
+      is C08's view `mabs` of the paged memory, which satisfies C08's invariant InvM (preserved: the new
+      states are again related).  memw_prog_b: memory operands narrower than 2^63 bits (C08's bound).
+      lift_compat: the re-lifting oracle cannot tell a paged memory from its byte view (trusted). *)
+Theorem paged_exec_sim : forall ps x o, srel ps x -> mem_pre x o ->
+  rres (erel pstate xstate srel) (pexecute ps o) (execute x o).
+Proof. exact PagedDriver.pexecute_sim. Qed.
+Print Assumptions paged_exec_sim.
+
+Theorem driver_is_byte_instance : forall lift c, rmap dconf_of (xstep lift c) = step lift (dconf_of c).
+Proof. exact PagedDriver.xstep_eq. Qed.
+Print Assumptions driver_is_byte_instance.
+
+Theorem paged_step_refines : forall ty sv lift plift,
+  (forall pm bm a, mrel pm bm -> plift pm a = lift bm a) ->
+  forall p pl fi l f x ps,
+  wf_prog_b ty sv p = true -> memw_prog_b p = true ->
+  ploc_apply p pl = Ok (fi, l) -> program_function p fi = Some f ->
+  typed_b ty (x_scal x) = true -> mem_ok_b (x_mem x) = true -> srel ps x ->
+  det_at f l (DriverSpec.abs sv x) = true -> top_at f l (DriverSpec.abs sv x) = false ->
+  prefines ty sv p fi (pstep plift (mkg p pl ps)) (sem_step f l (DriverSpec.abs sv x)).
+Proof. exact PagedDriver.paged_step_refines_main. Qed.
+Print Assumptions paged_step_refines.
+
+Theorem paged_steps_refine : forall ty sv lift plift,
+  (forall pm bm a, mrel pm bm -> plift pm a = lift bm a) ->
+  forall p n fi l f x ps,
+  wf_prog_b ty sv p = true -> memw_prog_b p = true ->
+  program_function p fi = Some f -> valid_loc f l = true ->
+  typed_b ty (x_scal x) = true -> mem_ok_b (x_mem x) = true -> srel ps x ->
+  run_ok n p (mksc fi l (DriverSpec.abs sv x)) = true ->
+  prun_refines sv p (prun plift n (mkg p (mkploc (Some fi) l) ps)) (sem_prun n p (mksc fi l (DriverSpec.abs sv x))).
+Proof. exact PagedDriver.paged_steps_refine_main. Qed.
+Print Assumptions paged_steps_refine.
+
+(* the relation is inhabited: a fresh paged memory and the empty byte map *)
+Example paged_fresh_related : forall e, srel (mkp [] (mnew e None)) (mkx [] (mkbmem (big_of e) [])).
+Proof. exact PagedDriver.srel_fresh. Qed.
+Print Assumptions paged_fresh_related.
 
 (* ---------- the hypotheses are satisfiable: a 3-block loop with 8/16/32/64-bit loads and stores ---------- *)
 Module Ex.
@@ -126,18 +171,29 @@ Definition start := LInstr 0 0.
 End Ex.
 
 Example example_hypotheses :
-  wf_prog_b Ex.ty Ex.sv Ex.p = true /\
+  wf_prog_b Ex.ty Ex.sv Ex.p = true /\ valid_loc Ex.f Ex.start = true /\ memw_prog_b Ex.p = true /\
   (forall big, typed_b Ex.ty (x_scal (Ex.x0 big)) = true /\ mem_ok_b (x_mem (Ex.x0 big)) = true /\
-               run_ok 70 Ex.p (mksc 0 Ex.start (abs Ex.sv (Ex.x0 big))) = true /\
-               sem_prun 70 Ex.p (mksc 0 Ex.start (abs Ex.sv (Ex.x0 big))) = FExit /\
+               run_ok 70 Ex.p (mksc 0 Ex.start (DriverSpec.abs Ex.sv (Ex.x0 big))) = true /\
+               sem_prun 70 Ex.p (mksc 0 Ex.start (DriverSpec.abs Ex.sv (Ex.x0 big))) = FExit /\
                run Ex.nolift 70 (mkd Ex.p (mkploc (Some 0) Ex.start) (Ex.x0 big)) = Err ENoLocation /\
                (* after 30 steps the loop is in its third iteration: both runs are still going and agree *)
-               match sem_prun 30 Ex.p (mksc 0 Ex.start (abs Ex.sv (Ex.x0 big))),
+               match sem_prun 30 Ex.p (mksc 0 Ex.start (DriverSpec.abs Ex.sv (Ex.x0 big))),
                      run Ex.nolift 30 (mkd Ex.p (mkploc (Some 0) Ex.start) (Ex.x0 big)) with
                | FRan c, Ok d => floc_eqb (sc_loc c) (pl_loc (d_loc d)) = true /\
                                  sget (x_scal (d_st d)) 4%N = Some (mkc 64 (2 ^ 32 * 3 + 1)) /\
-                                 abs Ex.sv (d_st d) = sc_st c
+                                 DriverSpec.abs Ex.sv (d_st d) = sc_st c
                | _, _ => False
                end).
-Proof. split; [vm_compute; reflexivity|]. intros [|]; vm_compute; repeat split; reflexivity. Qed.
+Proof. split; [vm_compute; reflexivity|]. split; [vm_compute; reflexivity|]. split; [vm_compute; reflexivity|].
+  intros [|]; vm_compute; repeat split; reflexivity. Qed.
 Print Assumptions example_hypotheses.
+
+(* the same loop run by the driver over the REAL paged-memory model (both endiannesses) *)
+Example example_paged_run : forall e,
+  prun (fun _ _ => Err EOther) 70 (mkg Ex.p (mkploc (Some 0) Ex.start) (mkp [] (mnew e None))) = Err ENoLocation /\
+  match prun (fun _ _ => Err EOther) 30 (mkg Ex.p (mkploc (Some 0) Ex.start) (mkp [] (mnew e None))) with
+  | Ok c => g_loc c = mkploc (Some 0) (LInstr 1 7) /\ sget (p_scal (g_st c)) 4%N = Some (mkc 64 (2 ^ 32 * 3 + 1))
+  | _ => False
+  end.
+Proof. intros [|]; vm_compute; repeat split; reflexivity. Qed.
+Print Assumptions example_paged_run.
